@@ -1,12 +1,16 @@
 import CelmaVerif.Lemmas.Spelling
 import CelmaVerif.Lemmas.RulesComplete
 import CelmaVerif.Lemmas.RulesLevel
+import CelmaVerif.Lemmas.ParseSmall
+import CelmaVerif.Lemmas.ParseProps
 /-
   C03 — every command line that obeys the declared rules is accepted.
   `Obeys` judges the order-sensitive rules in the documented sense: an exclusion forbids *later* key
   occurrences of the excluded argument, a requirement is met by a *later* key occurrence.
-  Partial for the same reasons as C01 (the `--` separator is not in `Spells`; destinations outside
-  the modelled fragment).
+  `C03_complete_partial` is stated over the grammar `Spells` (the forms the property lists),
+  `C03_complete_words_partial` over `SpellsPlus` (every form the handler accepts: also the separator
+  `--`, positional values, `!` — see Props/C01.lean).  Partial: destinations outside the modelled
+  fragment, formats and display options are not modelled.
 -/
 namespace CelmaVerif.Props.C03
 open CelmaVerif CelmaVerif.ProgArgs CelmaVerif.Keys
@@ -42,6 +46,92 @@ theorem C03_check_boundaries (v : Int) (s : Word) (hs : lexCastInt s = .ok v) :
   simp [Check.run, hs, throwIf, this]
 
 /-! ### non-vacuity -/
+/-- hypothesis of `C03_check_boundaries` (the joint examples for the other theorems follow) -/
 example : lexCastInt "5".toList = .ok 5 := by rfl
+
+/-! ### joint non-vacuity: all hypotheses of `C03_complete_partial` at once
+
+  `RulesExample.cfg` (Lemmas/RulesExample.lean): `-v,--verbose` (flag); `-n,--num` (int, mandatory, at
+  most once, 0 ≤ value < 10); `-o,--out` (string, requires `-n`); `-q,--quiet` (flag, excludes
+  `--verbose`); `-l,--list` (list of int, 1 to 3 values, each ≥ 0); handler constraint one-of( `-v`, `-q`).
+  `jointWords` = `-q -o file --nu=5 -l 1,2` spells `jointUses` = `-q`, `-o file`, `-n 5`, `-l 1,2`
+  (Lemmas/ParseSmall.lean): constraint-bearing arguments, an abbreviation, a list. -/
+
+open CelmaVerif.ProgArgs.RulesExample in
+/-- well-formed configuration, a spelling, the rules obeyed, no deprecated argument, the LevelCounter
+    hypothesis: all hold together for this line -/
+example : RulesExample.cfg.WellFormed ∧ RulesExample.cfg.args.length ≤ RulesExample.inits.length ∧
+    Spells RulesExample.cfg none jointUses jointWords ∧ Obeys RulesExample.cfg RulesExample.inits jointUses ∧
+    (∀ u ∈ jointUses, ∀ d, RulesExample.cfg.args[u.arg]? = some d → d.deprecated = false) ∧
+    (∀ (i : Nat) (d : ArgDef) (v : DVal), RulesExample.cfg.args[i]? = some d → d.kind = .level →
+      RulesExample.inits[i]? = some v → LevelValuesOk d (levelOf v) false false (valsOf i jointUses)) :=
+  ⟨cfg_wf, by decide, joint_spells, joint_obeys, joint_notDeprecated, joint_levels⟩
+
+open CelmaVerif.ProgArgs.RulesExample in
+/-- … hence, by the theorem, `prog -q -o file --nu=5 -l 1,2` is accepted -/
+example : ∃ hf, evalArguments RulesExample.cfg (RulesExample.cfg.initState RulesExample.inits) {}
+    ("prog".toList :: jointWords) = .ok hf :=
+  C03_complete_partial RulesExample.cfg cfg_wf RulesExample.inits (by decide) jointUses jointWords "prog".toList
+    joint_spells joint_obeys joint_notDeprecated joint_levels
+
+open CelmaVerif.ProgArgs.RulesExample in
+/-- the same line with `-v` added breaks "`-q` excludes `--verbose`": it is not accepted, so `Obeys`
+    is not an empty hypothesis (contrapositive of `rules_sound`) -/
+example : (evalUses RulesExample.cfg (RulesExample.cfg.initState RulesExample.inits) (jointUses ++ [useV])).isThrow = true ∧
+    ¬ Obeys RulesExample.cfg RulesExample.inits (jointUses ++ [useV]) := by
+  refine ⟨by decide, fun ob => ?_⟩
+  obtain ⟨hf, he⟩ := rules_complete cfg_wf (by decide) ob
+    (fun u _ d hd => (show ∀ d ∈ RulesExample.cfg.args, d.deprecated = false by decide) d (List.mem_of_getElem? hd))
+    (fun i d v hd hk _ => absurd hk
+      ((show ∀ d ∈ RulesExample.cfg.args, d.kind ≠ .level by decide) d (List.mem_of_getElem? hd)))
+  have ht : (evalUses RulesExample.cfg (RulesExample.cfg.initState RulesExample.inits) (jointUses ++ [useV])).isThrow = true := by
+    decide
+  rw [he] at ht
+  simp [Res.isThrow] at ht
+
+open CelmaVerif.ProgArgs.RulesExample in
+/-- the `levels` hypothesis instantiated non-trivially: `RulesExample.cfgLevel` has the single
+    LevelCounter argument `-v`; for the line `-v -v` the hypothesis is `LevelValuesOk` of two
+    increments from level 0 (`level_levels`), and the line is accepted -/
+example : LevelValuesOk cfgLevel.args[0] 0 false false (valsOf 0 levelUses) ∧
+    ∃ hf, evalArguments cfgLevel (cfgLevel.initState [.level 0]) {} ("prog".toList :: levelWords) = .ok hf :=
+  ⟨level_levels 0 _ _ rfl rfl rfl,
+   C03_complete_partial cfgLevel cfgLevel_wf [.level 0] (by decide) levelUses levelWords "prog".toList
+    level_spells level_obeys level_notDeprecated level_levels⟩
+
+/-! ### the same for every form the handler accepts (`SpellsPlus`) -/
+
+/-- **Completeness, every accepted form**: `C03_complete_partial` with the declarative grammar
+    `SpellsPlus` (⊇ `Spells`: also `--` in front of dash-leading values, values of the positional
+    argument, `--flag=value`, …) in place of `Spells`. -/
+theorem C03_complete_words_partial (cfg : Cfg) (wf : cfg.WellFormed) (inits : List DVal)
+    (hin : cfg.args.length ≤ inits.length) (us : List Use) (ws : List Word) (prog : Word)
+    (sp : SpellsPlus cfg us ws) (ob : Obeys cfg inits us)
+    (notDeprecated : ∀ u ∈ us, ∀ d, cfg.args[u.arg]? = some d → d.deprecated = false)
+    (levels : ∀ (i : Nat) (d : ArgDef) (v : DVal), cfg.args[i]? = some d → d.kind = .level →
+      inits[i]? = some v → LevelValuesOk d (levelOf v) false false (valsOf i us)) :
+    ∃ hf, evalArguments cfg (cfg.initState inits) {} (prog :: ws) = .ok hf := by
+  obtain ⟨g, he⟩ := rules_complete wf hin ob notDeprecated levels
+  have hs := spellsPlus_eval cfg (cfg.initState inits) prog rfl rfl sp
+  rw [he] at hs
+  obtain ⟨hf, hok, _⟩ := hs.ok_right
+  exact ⟨hf, hok⟩
+
+/-- **Acceptance depends on the abstract content only, every accepted form**: for words that spell
+    `us` in `SpellsPlus`, the evaluation of the argument vector and the abstract evaluation of `us`
+    both throw the same exception or both return (with the same destinations, counters and constraint
+    states). -/
+theorem C03_acceptance_by_content_words_partial (cfg : Cfg) (h : HState) (hl : h.lastArg = none)
+    (hi : h.inverted = false) (us : List Use) (ws : List Word) (prog : Word) (sp : SpellsPlus cfg us ws) :
+    ResSame (evalArguments cfg h {} (prog :: ws)) (evalUses cfg h us) :=
+  spellsPlus_eval cfg h prog hl hi sp
+
+/-- non-vacuity: the joint example is also a `SpellsPlus` derivation -/
+example : ∃ hf, evalArguments RulesExample.cfg (RulesExample.cfg.initState RulesExample.inits) {}
+    ("prog".toList :: RulesExample.jointWords) = .ok hf :=
+  C03_complete_words_partial RulesExample.cfg RulesExample.cfg_wf RulesExample.inits (by decide)
+    RulesExample.jointUses RulesExample.jointWords "prog".toList
+    (spells_sub_spellsPlus RulesExample.joint_spells) RulesExample.joint_obeys RulesExample.joint_notDeprecated
+    RulesExample.joint_levels
 
 end CelmaVerif.Props.C03
